@@ -709,7 +709,8 @@ def replay(key: str, model: dict, obligation: dict) -> dict:
                 expect = {"key": ("KeyError",), "index": ("IndexError",), "divzero": ("ZeroDivisionError",), "pop_empty": ("IndexError", "KeyError"),
                           "remove_absent": ("ValueError",), "set_remove_absent": ("KeyError",), "index_absent": ("ValueError",),
                           "min_max_empty": ("ValueError",), "unpack_arity": ("ValueError", "TypeError"), "enum_value": ("ValueError",),
-                          "randint_range": ("ValueError",), "choice_nonempty": ("IndexError", "ValueError"), "ip_range": ("AddressValueError", "ValueError")}
+                          "randint_range": ("ValueError",), "choice_nonempty": ("IndexError", "ValueError"), "ip_range": ("AddressValueError", "ValueError"),
+                          "join_of_non_strings": ("TypeError",)}
                 head = label.split(".")[0].split("@")[0]
                 ok = True
                 if head in ("none_deref", "none_subscript", "len_of_none", "iterate_none", "call_of_none", "attr_of_nonobject", "receiver_is_",
@@ -720,7 +721,7 @@ def replay(key: str, model: dict, obligation: dict) -> dict:
                 elif head == "assert":
                     ok = tn == "AssertionError"
                 elif head in expect:
-                    ok = tn in expect[head]
+                    ok = tn in expect[head] and (head != "join_of_non_strings" or "sequence item" in msg)
                 if not ok:
                     out["reproduced"] = None
                     out["detail"] = (f"real code raised {tn}, not the exception obligation `{label}` is about "
